@@ -472,6 +472,51 @@ func c16(r *Report) {
 	})
 
 	r.Guard("C16.R3", "Host, Content-Length and Transfer-Encoding are handled specially by every accessor of proxyutil.Header, and listed by Map", func() {
+		// a length that is not positive is "no Content-Length header" for All (and so for Map): the
+		// test on cl() admits 0 and -1 as absent and 1 as present
+		if all := w.method(w.Named("proxyutil", "Header"), "All"); all != nil && all.Blocks != nil {
+			isCL := func(v ssa.Value) bool {
+				c, isC := v.(*ssa.Call)
+				if !isC {
+					return false
+				}
+				if c.Call.IsInvoke() {
+					return c.Call.Method.Name() == "cl"
+				}
+				if ld, isLd := c.Call.Value.(*ssa.UnOp); isLd {
+					if fa, isFa := ld.X.(*ssa.FieldAddr); isFa && fieldObj(fa).Name() == "cl" {
+						return true
+					}
+				}
+				return false
+			}
+			ncl, okCL := 0, true
+			for _, in := range instrs(all) {
+				b, isB := in.(*ssa.BinOp)
+				if !isB || !(isCL(b.X) || isCL(b.Y)) {
+					continue
+				}
+				for _, e := range branchesOn(b) {
+					ncl++
+					absent := func(n int64) bool {
+						_, adm := constCmpAdmits(ctrlEdge{If: e.If, Taken: true}, isCL, n)
+						// which edge returns (nil, false)?
+						vals, _, _ := returnValuesFrom(e.True, 1)
+						trueIsAbsent := false
+						for _, v := range vals {
+							if k, isK := constBool(v); isK && !k {
+								trueIsAbsent = true
+							}
+						}
+						return adm == trueIsAbsent
+					}
+					if !(absent(0) && absent(-1) && !absent(1)) {
+						okCL = false
+					}
+				}
+			}
+			r.Decide("table", "(*M/proxyutil.Header).All: a Content-Length of 0 or -1 is absent, 1 is present", ncl >= 1 && okCL, "evaluated for -1, 0, 1", "All reports a Content-Length header for a length of 0: every body-less response (204, 304, a response whose length was never set) is logged with a Content-Length: 0 it does not carry", all.Pos())
+		}
 		hdr := w.Named("proxyutil", "Header")
 		want := []string{"Content-Length", "Host", "Transfer-Encoding"}
 		isCanon := func(v ssa.Value) bool { return isCallValue(v, "net/http.CanonicalHeaderKey") }
@@ -542,6 +587,7 @@ func c16(r *Report) {
 	})
 
 	r.Guard("C16.R4", "the JSON forms of post data and content are written and read with the same encoding vocabulary", func() {
+		marshalThroughJSONRule(r)
 		cnt := w.Named("har", "Content")
 		pdT := w.Named("har", "PostData")
 		isEnc := func(v ssa.Value) bool {
@@ -742,6 +788,32 @@ func c16(r *Report) {
 	})
 
 	r.Guard("C16.R5", "body capture follows the configured content-type options", func() {
+		// the capture decision handed to NewRequest / NewResponse is the configured predicate's
+		// answer for this message and nothing else (no length test in front of it: a response the
+		// proxy built itself has a body and a ContentLength of 0)
+		for _, pr := range [][2]string{{"M/har.NewRequest", "postDataLogging"}, {"M/har.NewResponse", "bodyLogging"}} {
+			for _, f := range w.Funcs("har") {
+				for _, c := range plainCalls(f, pr[0]) {
+					ok := true
+					for _, l := range resolveAll(c.Call.Args[1]) {
+						cc, isC := l.(*ssa.Call)
+						viaField := false
+						if isC && !cc.Call.IsInvoke() {
+							if ld, isLd := cc.Call.Value.(*ssa.UnOp); isLd {
+								if fa, isFa := ld.X.(*ssa.FieldAddr); isFa && fieldObj(fa).Name() == pr[1] {
+									viaField = true
+								}
+							}
+						}
+						if !viaField {
+							ok = false
+						}
+					}
+					r.Touch(f)
+					r.Decide("flow", fnName(f)+": "+site(f, c)+" is told to capture exactly when "+pr[1]+" says so", ok, "the argument is the predicate's result", "the capture flag handed on is the predicate's answer combined with something else (a Content-Length test): a body the options ask for is not captured - content of size 0 for a response that has one", c.Pos())
+				}
+			}
+		}
 		// the four content-type options: an opt-in list captures exactly the listed types, a
 		// skip list everything but them
 		for _, oc := range []struct {
@@ -1170,6 +1242,9 @@ func headerMapKeysRule(r *Report) {
 				for v := range w.backSlice(rv, flowOpt{CallArg: true}) {
 					if c, isC := v.(*ssa.Call); isC {
 						if sc := c.Call.StaticCallee(); sc != nil && sc.Name() == "te" {
+							whole = true
+						}
+						if c.Call.IsInvoke() && c.Call.Method.Name() == "te" {
 							whole = true
 						}
 						if ld, isLd := c.Call.Value.(*ssa.UnOp); isLd && !c.Call.IsInvoke() {
